@@ -185,6 +185,42 @@ async fn scenario(name: &str) -> Result<(), String> {
         return Err(format!("MODEL: the scenario's own set-up did not take: leader serves {:?}, snapshot index {}", on_leader, s_index));
     }
     match name {
+        "three_paths_same_state" => {
+            // C07: the same committed requests through (a) the leader's apply path (done by `leader` above: entries 1..=3),
+            // (b) the follower's batch replication path, (c) start-up replay of the log on a restarted node
+            let follower = boot(d2.path()).await;
+            let reqs = vec![config_set("a.yaml", "a: 1", 1), mcp_server(), config_set("a.yaml", "a: 2", 2)];
+            let entries: Vec<Entry<ClientRequest>> = reqs
+                .iter()
+                .enumerate()
+                .map(|(i, r)| Entry { term: 1, index: i as u64 + 1, payload: EntryPayload::Normal(EntryNormal { data: r.clone() }) })
+                .collect();
+            follower.store.replicate_to_log(&entries).await.map_err(|e| format!("MODEL: replicate_to_log: {}", e))?;
+            let idx: Vec<u64> = (1..=reqs.len() as u64).collect();
+            let pairs: Vec<(&u64, &ClientRequest)> = idx.iter().zip(reqs.iter()).collect();
+            follower.store.replicate_to_state_machine(&pairs).await.map_err(|e| format!("replicate_to_state_machine fails: {}", e))?;
+            tokio::time::sleep(Duration::from_millis(200)).await;
+            let on_follower = served(&follower).await;
+            if on_follower != on_leader {
+                return Err(format!("the same committed requests give {:?} through follower replication and {:?} through the leader's apply path", on_follower, on_leader));
+            }
+            // (c) is the leader's own log replayed after a restart - before any compaction, so take a second leader without one
+            let l2 = boot(d3.path()).await;
+            for (i, r) in reqs.iter().enumerate() {
+                commit(&l2, i as u64 + 1, r.clone()).await;
+            }
+            let before = served(&l2).await;
+            let d4 = tempfile::tempdir().unwrap();
+            let (_end, applied) = stop_and_copy(&l2, d3.path(), d4.path()).await;
+            let restarted = boot(d4.path()).await;
+            let replayed = served(&restarted).await;
+            if replayed != before || before != on_leader {
+                return Err(format!(
+                    "the same committed requests give {:?} through start-up replay (last applied {}) and {:?} through the leader's apply path",
+                    replayed, applied, before
+                ));
+            }
+        }
         "compaction_then_restart" => {
             let (end, applied) = stop_and_copy(&leader, d1.path(), d2.path()).await;
             let restarted = boot(d2.path()).await;
